@@ -239,7 +239,7 @@ class TokCfg:
         return [n for n, _ in ref], text, ref
 
     def value_of(self, term, lexeme):
-        if term == "STR":
+        if term in ("STR", "YES"):
             return lexeme[1:-1]
         if term == "TEXT" or (term == "STRING" and lexeme.startswith("'''")):
             return lexeme[3:-3]
@@ -258,13 +258,16 @@ TOKCFGS = [
     TokCfg(
         "words+keywords+comments",
         r"""(?P<SPACE>\s+)|(?P<COMMENT>\#[^#\n]*\#)|(?P<W>[a-z]+)|(?P<NUM>[0-9]+)|(?P<SEMI>;)|"(?P<STR>[^"]*)\"""",
-        ['WORD', 'IF', 'DO', 'n', ';', 'STR', 'PRAGMA'],
-        {'WORD': ['x', 'yy', 'iff', 'dodo', 'i', 'f'], 'IF': ['if'], 'DO': ['do'], 'PRAGMA': ['#pragma#'],
+        ['WORD', 'IF', 'DO', 'n', ';', 'STR', 'PRAGMA', 'YES'],
+        {'WORD': ['x', 'yy', 'iff', 'dodo', 'i', 'f', 'yes'], 'IF': ['if'], 'DO': ['do'], 'PRAGMA': ['#pragma#'],
+         'YES': ['"yes"'],
          'n': ['0', '17', '007'], ';': [';'], 'STR': ['""', '"if"', '"a b"', '"#x#"', '"p\x0cq"', '"u\u2028v if"']},
         [" ", "\n", " # if do ; # ", "  ", "\n\n", " #1# #2# ", " #see\x0bpage 2 if# ", "\x0c"],
         synonyms={'NUM': 'n', 'SEMI': ';', 'W': 'WORD'},
         # (one keyword is keyed on a token name that is skipped by default: that comment is a real token)
-        keywords={('WORD', 'if'): 'IF', ('WORD', 'do'): 'DO', ('COMMENT', '#pragma#'): 'PRAGMA'},
+        # (... and one on the string token: the string "yes" is a token of its own, the word yes is a word - and the
+        # string "if" is a string)
+        keywords={('WORD', 'if'): 'IF', ('WORD', 'do'): 'DO', ('COMMENT', '#pragma#'): 'PRAGMA', ('STR', 'yes'): 'YES'},
     ),
     TokCfg(
         "explicit-skip+comment-as-token",
